@@ -102,6 +102,51 @@ def run(ctx):
             if not ctx.violations:
                 H.restore_all()
             H.report_diffs("backup-run")
+    # targeted: a second run inside the same second as the previous one (cron + a manual run, a retry loop): its backup name collides with the
+    # one just published. Whatever the run does about it, every backup present afterwards still resolves its extern records inside its
+    # group, and the next run (a second later) keeps that
+    if not ctx.has_failing_input():
+        with slevel.Sandbox("c02") as sb:
+            H = runs.History(ctx, sb, rng, "C02", 3, 6, identity_changes=False)
+            H.advance = lambda: None
+            H.now += 3600
+            H.w.populate(nfiles=6)
+            for variant in ("first of the group", "second of the group"):
+                H.now += 61
+                H.run(nedits=0)
+                name = H.name_of_now()
+                edits = [H.w.edit(False) for _ in range(2)] if variant.startswith("second") else []
+                res = H.w.backup(H.now)
+                ctx.evaluations += 1
+                ctx.count("targeted.same-second-collision")
+                H.dec = H.w.decode()
+                H.log.append({"colliding run at": name, "edits": edits, "exit": res["exit"], "errors": res["errors"][:2]})
+                for g in H.dec["groups"]:
+                    uniques = set()
+                    for e in g["entries"]:
+                        if not runs.recognised(e):
+                            continue
+                        ls = runs.parse_manifest(e)
+                        if ls is None:
+                            H.violation("C02", "after a second run at %s (%s) the manifest of %s/%s is unreadable" % (name, variant, g["name"], e["name"]))
+                            break
+                        here = set()
+                        for l in ls:
+                            if l["unique"]:
+                                here.add(l["hash"])
+                            elif l["size"] != 0 and l["hash"] not in uniques and l["hash"] not in here:
+                                H.violation("C02", "after a second run at %s (%s, exit %d) %s/%s records %r as extern (%d bytes) but no earlier unique "
+                                            "record of its hash exists in the group" % (name, variant, res["exit"], g["name"], e["name"], l["path"], l["size"]))
+                                break
+                        uniques |= here
+                    if ctx.violations:
+                        break
+                if ctx.violations:
+                    break
+            if not ctx.violations:
+                H.now += 1
+                H.run(nedits=1)
+            H.report_diffs("backup-run")
     # content that changes between the two read passes of a new file, with a copy of the old content archived later in the same run: the
     # hash of the first pass must not become something an extern line can refer to
     if not ctx.has_failing_input():
